@@ -74,8 +74,10 @@ func (s *Sched) nextDeadline() int64 {
 // advance moves the clock to instant t (never backwards) and fires the alarms due at the
 // earliest instant, in creation order.
 func (s *Sched) advance(t int64) {
-	if t > s.now {
-		s.now = t
+	// the clock lands one nanosecond past the instant: code that wakes up because a timer
+	// fired always reads a time strictly after the timer's deadline, never equal to it
+	if t+1 > s.now {
+		s.now = t + 1
 	}
 	var due []*Alarm
 	for _, a := range s.timers {
@@ -104,3 +106,7 @@ func VNow() time.Time {
 
 // NS converts a virtual time.Time to virtual nanoseconds.
 func NS(t time.Time) int64 { return int64(t.Sub(S.Base)) }
+
+// NS2 converts a wall-clock value produced under base to virtual nanoseconds (usable after
+// the execution has ended).
+func NS2(t, base time.Time) int64 { return int64(t.Sub(base)) }
